@@ -587,6 +587,91 @@ fn congress_history(rng: &mut Rng, thorough: bool, rep: &Report) -> bool {
     true
 }
 
+/// Steady patterns with KNOWN frequencies: every group has one constant volume whenever it is active
+/// and is active every interval or every other interval, so which of two groups is the rarer is
+/// beyond doubt (the sampler's own averages are not consulted). A quiet phase (total <= target) is
+/// followed by a busy phase in which "burster" groups push the total over the target and new
+/// constant groups appear. Whenever two constant groups that have been active before send in the
+/// same interval, the rarer one must not be sampled at a lower rate (the rate in force when its
+/// entries arrive) than the more frequent one.
+#[cfg(metrique_verif)]
+fn congress_steady_scenario(rng: &mut Rng, rep: &Report) -> bool {
+    let target = *rng.pick(&[30u32, 100, 1000]);
+    let shared = SharedRng::new(rng.next_u64());
+    let rec = RecFormat::default();
+    let mut c = CongressSampleBuilder::default().interval(Duration::from_secs(86_400)).target_entries_per_interval(target).build_with_rng(rec.clone(), shared.clone());
+    struct G {
+        name: String,
+        volume: u64,
+        period: u64,
+        phase: u64,
+        from: u64, // first interval in which the group exists
+        constant: bool,
+        active_before: bool,
+    }
+    let quiet = rng.below(40);
+    let busy = 3 + rng.below(25);
+    let mut groups: Vec<G> = vec![];
+    // old groups: small constant volumes that together stay below the target
+    let n_old = 1 + rng.below(4);
+    let mut budget_left = target as u64;
+    for i in 0..n_old {
+        let v = 1 + rng.below((budget_left / (n_old - i + 1)).max(1));
+        budget_left = budget_left.saturating_sub(v);
+        groups.push(G { name: format!("old{i}"), volume: v, period: 1 + rng.below(2), phase: rng.below(2), from: 0, constant: true, active_before: false });
+    }
+    // constant groups that appear with the busy phase, and bursters that make it busy
+    for i in 0..rng.below(4) {
+        groups.push(G { name: format!("new{i}"), volume: 1 + rng.below(3 * target as u64), period: 1 + rng.below(2), phase: rng.below(2), from: quiet, constant: true, active_before: false });
+    }
+    for i in 0..1 + rng.below(2) {
+        groups.push(G { name: format!("burst{i}"), volume: (2 + rng.below(20)) * target as u64, period: 1 + rng.below(2), phase: rng.below(2), from: quiet, constant: false, active_before: false });
+    }
+    let mut next_id = 0u64;
+    let mut trace: Vec<String> = vec![];
+    for iv in 0..quiet + busy {
+        // (group index, rate in force when its first entry of this interval arrived)
+        let mut seen: Vec<(usize, f32)> = vec![];
+        let mut order: Vec<usize> = (0..groups.len()).filter(|g| iv >= groups[*g].from && (iv + groups[*g].phase) % groups[*g].period == 0).collect();
+        rng.shuffle(&mut order);
+        for g in order {
+            let rates = c.verif_group_rates();
+            let rate = rates.iter().find(|r| r.0.len() == 1 && r.0[0].1 == groups[g].name.as_str()).map(|r| r.1).unwrap_or(1.0);
+            seen.push((g, rate));
+            for _ in 0..groups[g].volume {
+                let _ = c.format(&group_entry(next_id, &groups[g].name), &mut io::sink());
+                next_id += 1;
+            }
+            rep.eval();
+        }
+        trace.push(format!("iv{iv}: {}", seen.iter().map(|(g, r)| format!("{}x{}@{:e}", groups[*g].name, groups[*g].volume, r)).collect::<Vec<_>>().join(" ")));
+        for (a, ra) in &seen {
+            for (b, rb) in &seen {
+                let (ga, gb) = (&groups[*a], &groups[*b]);
+                if ga.constant && gb.constant && ga.active_before && gb.active_before && ga.volume < gb.volume && ga.period >= gb.period && (*ra as f64) < *rb as f64 * (1.0 - 1e-4) {
+                    rep.violation(
+                        "congress-rarer-group-sampled-lower",
+                        json!({"what": "steady pattern with known volumes: a group that is rarer beyond doubt (smaller constant volume, not active more often) is sampled at a lower rate than a more frequent one; both had been active before",
+                               "target": target, "interval": iv, "quiet_intervals_before": quiet,
+                               "rarer": format!("{}: {} per active interval, every {} interval(s), rate in force {:e}", ga.name, ga.volume, ga.period, ra),
+                               "more_frequent": format!("{}: {} per active interval, every {} interval(s), rate in force {:e}", gb.name, gb.volume, gb.period, rb),
+                               "history_tail": trace.iter().rev().take(6).collect::<Vec<_>>()}),
+                    );
+                    return false;
+                }
+            }
+        }
+        for (g, _) in &seen {
+            groups[*g].active_before = true;
+        }
+        rec.clear();
+        c.verif_end_interval();
+        rep.count("congress_steady_intervals", 1);
+    }
+    rep.distinct(Fnv::new().str("steady").u64(target as u64).u64(quiet).u64(busy).u64(groups.len() as u64).finish());
+    true
+}
+
 fn main() {
     let args = Args::parse();
     let rep = Report::new("C12", &args);
@@ -620,7 +705,7 @@ fn main() {
                 s.spawn(move || {
                     let mut rng = Rng::derive(args.seed, 0x100 + lane);
                     while start.elapsed() < budget && rep.violation_count() == 0 {
-                        if !congress_history(&mut rng, args.thorough(), rep) {
+                        if !congress_history(&mut rng, args.thorough(), rep) || !congress_steady_scenario(&mut rng, rep) {
                             return;
                         }
                         rep.count("congress_histories", 1);
